@@ -101,8 +101,16 @@ def apod_hook(vn, call, st):
     """_apodize(x, ...) scales its first argument in place (and returns it)"""
     f = call.func
     if isinstance(f, ast.Name) and f.id == "_apodize":
-        args = [vn._as_term(vn.ev(a, st)) for a in call.args]
-        k = vn.key_of(call.args[0])
+        # arguments in the order of _apodize's own signature, whatever the spelling of the call
+        order = ["input", "ndim", "oversamp", "width", "beta"]
+        nodes = list(call.args) + [None] * (len(order) - len(call.args))
+        for kwd in call.keywords:
+            if kwd.arg in order:
+                nodes[order.index(kwd.arg)] = kwd.value
+        if any(n is None for n in nodes):
+            return None
+        args = [vn._as_term(vn.ev(a, st)) for a in nodes]
+        k = vn.key_of(nodes[0])
         res = T.app("fn:sigpy.fourier._apodize", *args)
         if k is not None:
             st.env[k] = res
